@@ -3,6 +3,8 @@
   are shifted by a relative margin.  If the three runs of the *same* model text agree on every
   discrete observable, no decision taken so far was within the margin of a tie; otherwise the
   harness truncates the trace there (near-tie exclusion, DESIGN §3.4).
+  Exception: `0 ⋚ 0` between two exact zeros is decided exactly (sums of exact zeros are exact on both sides; without this every
+  stream starting with 0.0 would be excluded from its first update by ADWIN's `total < 0` test).
 -/
 import FrourosModel.Num
 namespace Frouros
@@ -31,8 +33,8 @@ instance : Num FLo where
   exp a := ⟨a.v.exp⟩
   abs a := ⟨a.v.abs⟩
   npow a n := ⟨Float.pow a.v (Float.ofNat n)⟩
-  lt a b := a.v < b.v - tieScale a.v b.v
-  le a b := a.v ≤ b.v - tieScale a.v b.v
+  lt a b := if a.v == 0.0 && b.v == 0.0 then false else a.v < b.v - tieScale a.v b.v
+  le a b := if a.v == 0.0 && b.v == 0.0 then true else a.v ≤ b.v - tieScale a.v b.v
   beq a b := a.v == b.v
 
 instance : Num FHi where
@@ -48,8 +50,8 @@ instance : Num FHi where
   exp a := ⟨a.v.exp⟩
   abs a := ⟨a.v.abs⟩
   npow a n := ⟨Float.pow a.v (Float.ofNat n)⟩
-  lt a b := a.v < b.v + tieScale a.v b.v
-  le a b := a.v ≤ b.v + tieScale a.v b.v
+  lt a b := if a.v == 0.0 && b.v == 0.0 then false else a.v < b.v + tieScale a.v b.v
+  le a b := if a.v == 0.0 && b.v == 0.0 then true else a.v ≤ b.v + tieScale a.v b.v
   beq a b := a.v == b.v
 
 class Carrier (α : Type) extends Num α where
